@@ -296,6 +296,28 @@ class Ctx:
                         todo.append(w)
         return seen
 
+    # ---- thorough tier: independent re-check of the compiled proofs with coqchk
+    def coqchk(self, namespace, target, timeout=2400):
+        """Re-check <namespace>.<target> and everything it depends on with coqchk -o; the axioms it lists must be allowed ones."""
+        if not os.path.exists(os.path.join(self.coqdir, target + ".vo")):
+            return
+        rc, o, e = sh("timeout %d coqchk -o -silent -Q . %s %s.%s" % (timeout, namespace, namespace, target), cwd=self.coqdir, timeout=timeout + 60)
+        txt = o + e
+        axioms = []
+        m = re.search(r"\* Axioms:(.*?)\n\s*\n\* ", txt, re.S)
+        if m:
+            body = m.group(1).strip()
+            if body != "<none>":
+                axioms = [l.strip() for l in body.split("\n") if l.strip()]
+        bad = [a for a in axioms if not any(a.endswith(x.split(".")[-1]) or x in a for x in ALLOWED_AXIOMS)]
+        ok = rc == 0 and m is not None and not bad and "type-in-type: <none>" in txt and "unsafe (co)fixpoints: <none>" in txt \
+            and "positivity is assumed: <none>" in txt
+        self.extra["coqchk"] = ("ok: axioms %s, no type-in-type, no unsafe fixpoints, no assumed positivity"
+                                % (", ".join(axioms) if axioms else "<none>")) if ok else txt[-800:]
+        if not ok:
+            self.broken_tie("coqchk does not accept %s.%s" % (namespace, target), txt[-800:])
+
+    # ---- oracle (extracted model)
     # ---------------------------------------------------------------- oracle (extracted model)
     def oracle_build(self, name="vorac", extract="Extract", mains=("main.ml",), timeout=600):
         """Extract the model (Extract.v, run from oracle/gen) and compile oracle/main.ml against it. Returns exe path."""
